@@ -496,7 +496,7 @@ class Sequence:
         # TODO: must all elements have same length? Does any AWG require this?
 
         # Finally, check that all positions are filled
-        positions = list(self._data.keys())
+        positions = sorted(self._data.keys())
         if positions == []:  # case of empty Sequence
             positions = [1]
         if not positions == list(range(1, len(positions) + 1)):
